@@ -15,6 +15,8 @@ import traceback
 VERIF = os.path.dirname(os.path.dirname(os.path.abspath(__file__)))
 if VERIF not in sys.path:
     sys.path.insert(1, VERIF)
+if os.path.join(VERIF, "harness") not in sys.path:
+    sys.path.insert(2, os.path.join(VERIF, "harness"))     # "import refmodel"
 
 sys.setrecursionlimit(5000)
 
